@@ -82,7 +82,7 @@ Definition client_close : M unit :=
   s <-- get_sock ;;
   match s with
   | None => ret tt
-  | Some sid => mfinally (mtry (call (EClose sid)) Exception_ (fun _ => ret tt)) (set_sock None)
+  | Some sid => mfinally (mtry (call (EClose sid)) Exception_ (fun _ => ret tt)) drop_sock
   end.
 
 (* one iteration of the address loop: inl (sid) on success, inr e when an Exception was caught *)
@@ -143,21 +143,21 @@ Definition client_connect (c : cfg) : M unit :=
   ) Exception_ (fun e => call (EClose sid) ;;; throw e) ;;;
   set_sock (Some sid).
 
-Definition ensure_connected (c : cfg) : M Z :=
+Definition ensure_connected (c : cfg) : M unit :=
   s <-- get_sock ;;
   match s with
-  | Some sid => ret sid
-  | None => client_connect c ;;; s' <-- get_sock ;; match s' with Some sid => ret sid | None => throw AssertionError end
+  | Some _ => ret tt
+  | None => client_connect c
   end.
 
 (* a reader wrapped in `except MemcacheUnexpectedCloseError: self.close(); raise` *)
-Definition guarded_reader {A} (sid : Z) (r : list choice -> list Z -> list Z -> rres A * rstate * nat) : M A :=
-  mtry (run_reader sid r) MemcacheUnexpectedCloseError (fun e => client_close ;;; throw e).
+Definition guarded_reader {A} (r : list choice -> list Z -> list Z -> rres A * rstate * nat) : M A :=
+  mtry (run_reader r) MemcacheUnexpectedCloseError (fun e => client_close ;;; throw e).
 (* one request/reply exchange: `buf = b""` at the start, the buffer is dropped at the end *)
 Definition exchange {A} (m : M A) : M A := set_buf [] ;;; mfinally m discard.
 
 (* ------------------------------------------------------------------ _fetch_cmd *)
-Definition extract_value (c : cfg) (sid : Z) (expect_cas : bool) (line : list Z) (remapped : list (list Z * dyn))
+Definition extract_value (c : cfg) (expect_cas : bool) (line : list Z) (remapped : list (list Z * dyn))
   : M (dyn * dyn) :=
   let parts := split_ws line in
   '(key, flags, size, cas) <-- lift (match parts, expect_cas with
@@ -165,32 +165,33 @@ Definition extract_value (c : cfg) (sid : Z) (expect_cas : bool) (line : list Z)
       | [_; k; f; s], false => Ok (k, f, s, [])
       | _, _ => Raise ValueError end) ;;
   sz <-- lift (match int_of_text size with Some z => Ok z | None => Raise ValueError end) ;;
-  value <-- guarded_reader sid (fun cs avail buf => readvalue cs avail [] false (sz + 2) buf 0) ;;
+  (if sz <? 0 then mark_bad else ret tt) ;;;
+  value <-- guarded_reader (fun cs avail buf => readvalue cs avail [] false (sz + 2) buf 0) ;;
   okey <-- lift (match bdict_get remapped key with Some k => Ok k | None => Raise KeyError end) ;;
   fl <-- lift (match int_of_text flags with Some z => Ok z | None => Raise ValueError end) ;;
   v <-- lift (serde_deserialize c (DBytes value) fl) ;;
   ret (okey, (if expect_cas then DTuple [v; DBytes cas] else v)).
 
-Fixpoint fetch_loop (fuel : nat) (c : cfg) (sid : Z) (name : list Z) (expect_cas : bool)
+Fixpoint fetch_loop (fuel : nat) (c : cfg) (name : list Z) (expect_cas : bool)
                     (remapped : list (list Z * dyn)) (result : list dyn) : M (list dyn) :=
   match fuel with
   | O => throw AssertionError                         (* unreachable: every iteration consumes input *)
   | S fuel' =>
-    line <-- guarded_reader sid (fun cs avail buf => readline cs avail [] buf 0) ;;
+    line <-- guarded_reader (fun cs avail buf => readline cs avail [] buf 0) ;;
     lift (raise_errors line) ;;;
     if list_eqb line L_END || list_eqb line L_OK then ret result
     else if prefixb L_VALUE line then
-      '(k, v) <-- extract_value c sid expect_cas line remapped ;;
-      fetch_loop fuel' c sid name expect_cas remapped (dict_set result k v)
+      '(k, v) <-- extract_value c expect_cas line remapped ;;
+      fetch_loop fuel' c name expect_cas remapped (dict_set result k v)
     else if list_eqb name L_stats && prefixb L_STAT line then
       match split_ws line with
-      | _ :: k :: rest => fetch_loop fuel' c sid name expect_cas remapped
+      | _ :: k :: rest => fetch_loop fuel' c name expect_cas remapped
                             (dict_set result (DBytes k) (DBytes (match rest with v :: _ => v | [] => [] end)))
       | _ => throw IndexError
       end
     else if list_eqb name L_stats && prefixb L_ITEM line then
       match split_ws line with
-      | _ :: k :: rest => fetch_loop fuel' c sid name expect_cas remapped
+      | _ :: k :: rest => fetch_loop fuel' c name expect_cas remapped
                             (dict_set result (DBytes k) (DBytes (join_with L_sp rest)))
       | _ => throw IndexError
       end
@@ -206,9 +207,10 @@ Definition fetch_cmd (c : cfg) (name : list Z) (keys : list dyn) (expect_cas : b
   eb <-- lift (match expire with Some e => bind (check_integer c e) (fun b => Ok (L_sp ++ b)) | None => Ok [] end) ;;
   let cmd := name ++ eb ++ (match pks with [] => [] | _ => L_sp ++ join_with L_sp pks end) ++ L_crlf in
   exchange (mtry (
-    sid <-- ensure_connected c ;;
-    send sid cmd ;;;
-    fun w => fetch_loop (S (S (length (conn_get (w_conns w) sid)))) c sid name expect_cas remapped [] w
+    ensure_connected c ;;;
+    send cmd ;;;
+    fun w => fetch_loop (S (S (length (match w_sock w with Some sid => conn_get (w_conns w) sid | None => [] end))))
+                        c name expect_cas remapped [] w
   ) (h_fetch c) (fun e => client_close ;;; if c_ignore_exc c && exn_isa e Exception_ then ret [] else throw e)).
 
 (* ------------------------------------------------------------------ _store_cmd *)
@@ -242,13 +244,13 @@ Definition store_cmd (c : cfg) (name : list Z) (values : list (dyn * dyn)) (expi
         bind (go t) (fun rest =>
         Ok (name ++ L_sp ++ key ++ L_sp ++ fb ++ L_sp ++ eb ++ L_sp ++ str_of_Z (zlen db) ++ extra ++ L_crlf ++ db ++ L_crlf ++ rest))))))
       end) values) ;;
-  sid <-- ensure_connected c ;;
+  ensure_connected c ;;;
   exchange (mtry (
-    send sid cmds ;;;
+    send cmds ;;;
     if noreply then ret (fold_left (fun d kv => dict_set d (fst kv) (DBool true)) values [])
     else
       mfor values (fun kv results =>
-              line <-- guarded_reader sid (fun cs avail buf => readline cs avail [] buf 0) ;;
+              line <-- guarded_reader (fun cs avail buf => readline cs avail [] buf 0) ;;
               lift (raise_errors line) ;;;
               v <-- lift (store_result name line) ;;
               ret (dict_set results (fst kv) v)) []
@@ -256,13 +258,13 @@ Definition store_cmd (c : cfg) (name : list Z) (values : list (dyn * dyn)) (expi
 
 (* ------------------------------------------------------------------ _misc_cmd *)
 Definition misc_cmd (c : cfg) (cmds : list (list Z)) (noreply : bool) (end_tokens : list Z) : M (list (list Z)) :=
-  sid <-- ensure_connected c ;;
+  ensure_connected c ;;;
   exchange (mtry (
-    send sid (concat cmds) ;;;
+    send (concat cmds) ;;;
     if noreply then ret []
     else
       mfor cmds (fun _ results =>
-              line <-- guarded_reader sid (fun cs avail buf =>
+              line <-- guarded_reader (fun cs avail buf =>
                                   match end_tokens with
                                   | [] => readline cs avail [] buf 0
                                   | _ => readsegment cs avail end_tokens buf 0 end) ;;
@@ -402,7 +404,7 @@ Fixpoint run_ops (c : cfg) (ops : list op) : M (list (exc dyn)) :=
 End WithPeer.
 
 Definition init_world {P} (p : P) (sc : list outcome) (cs : list choice) : world P :=
-  {| w_script := sc; w_choices := cs; w_peer := p; w_conns := []; w_buf := []; w_discarded := [];
+  {| w_script := sc; w_choices := cs; w_peer := p; w_conns := []; w_buf := []; w_discarded := []; w_bad := false;
      w_trace := []; w_next := 0; w_sock := None |}.
 (* the scripted peer: the k-th sendall is answered by the k-th listed reply (none when exhausted) *)
 Definition scripted_peer (p : list (list Z)) (_ : list Z) : list (list Z) * list Z :=
